@@ -321,6 +321,17 @@ func writeEncoding(encoding []string) string {
 	return b.String()
 }
 
+// commentSafe makes a string safe for inclusion in a PostScript comment,
+// by replacing all characters which would end the comment.
+func commentSafe(s string) string {
+	return strings.Map(func(r rune) rune {
+		if r == '\n' || r == '\r' || r == '\f' {
+			return ' '
+		}
+		return r
+	}, s)
+}
+
 func isStandardEncoding(encoding []string) bool {
 	if len(encoding) != 256 {
 		return false
@@ -343,8 +354,9 @@ var tmpl = template.Must(template.New("type1").Funcs(template.FuncMap{
 		return x.PS()
 	},
 	"E": writeEncoding,
+	"C": commentSafe,
 }).Parse(`{{define "SectionA" -}}
-%!FontType1-1.1: {{.FontName}} {{.Version}}
+%!FontType1-1.1: {{.FontName}} {{.Version|C}}
 {{if not .CreationDate.IsZero}}%%CreationDate: {{.CreationDate.Format "2006-01-02 15:04:05 -0700 MST"}}
 {{end -}}
 10 dict begin
